@@ -632,7 +632,26 @@ func (c *C08Case) addFault(r *gen.Rand, names []string) {
 			c.Faults = append(c.Faults, "sink:output-file")
 			if r.Chance(0.4) {
 				// the disk fills up while the output file is written
-				inv.Injects = append(inv.Injects, procsim.Inject{Syscall: "write", Path: filepath.Join(c08Dir, c.OutFile), Errno: r.Pick("ENOSPC", "EIO")})
+				// ... at the first write, or — "short+": a file size limit of
+				// a few bytes lets the first write through in part and the
+				// error arrives on the second one, with n > 0 (stock binary
+				// only: the limit applies to every regular file the tool writes)
+				kind := r.Pick("ENOSPC", "EIO", "EPIPE", "short+EPIPE", "short+ENOSPC", "short+EIO", "short+EPIPE", "short+EFBIG")
+				in := procsim.Inject{Syscall: "write", Path: filepath.Join(c08Dir, c.OutFile), Errno: kind}
+				if strings.HasPrefix(kind, "short+") && (c.Tool == "bklb" || c.Tool == "kubectl-bkl") {
+					kind = strings.TrimPrefix(kind, "short+") // the wrappers write temporary files of their own
+					in.Errno = kind
+				}
+				if strings.HasPrefix(kind, "short+") {
+					in.Errno = strings.TrimPrefix(kind, "short+")
+					in.When = "2+"
+					inv.FSize = int64(1 + len(c.OutFile)%7)
+					inv.Kind = "stock"
+					c.Faults = append(c.Faults, "sink:short-write-then-error")
+				}
+				if in.Errno != "EFBIG" { // EFBIG: the kernel's own answer to the limit, nothing injected
+					inv.Injects = append(inv.Injects, in)
+				}
 				c.Faults = append(c.Faults, "io:write:output-file")
 			}
 		}
